@@ -111,7 +111,7 @@ class C30(Standard):
         rng = ctx.rng
         cases = []
         # 1. every schedule up to a length, small capacities (strengthens the tie; not the proof)
-        n = 16 if ctx.thorough else 11
+        n = 16 if ctx.thorough else 10
         for S in (1, 2):
             for bits in itertools.product((0, 1), repeat=n):
                 cases.append(Case("all%d" % n, [str(S)], ops_of(bits)))
